@@ -119,7 +119,10 @@ class Ownership:
                         out.setdefault(Member(attr, "elem"), set()).update(keep)
                 else:
                     if self._maybe_transform(cls, attr, t):
-                        out.setdefault(Member(attr, "attr"), set()).add(t)
+                        kind = "attr"
+                        if t[0] == "param" and self.asserted_family_param(cls, t[1]) == "elem":
+                            kind = "elem"
+                        out.setdefault(Member(attr, kind), set()).add(t)
         return out
 
     def _maybe_transform(self, cls, attr, t) -> bool:
@@ -128,8 +131,30 @@ class Ownership:
         if t[0] == "inst":
             return self.in_family(t[1])
         if t[0] == "param":
-            return self.transform_like_param(cls, attr)
+            return self.transform_like_param(cls, attr) or bool(self.asserted_family_param(cls, t[1]))
         return False
+
+    def asserted_family_param(self, cls: ClassInfo, param: str) -> Optional[str]:
+        """The constructor asserts that the parameter (or each of its elements) is an instance of the family:
+        ``assert isinstance(p, K)`` / ``assert all(isinstance(c, K) for c in p)``."""
+        for owner, fi in self.types.init_chain(cls):
+            for st in ast.walk(fi.node):
+                if not isinstance(st, ast.Assert):
+                    continue
+                for y in ast.walk(st.test):
+                    if isinstance(y, ast.Call) and isinstance(y.func, ast.Name) and y.func.id == "isinstance" and len(y.args) == 2:
+                        ks = self.guard_classes(fi, y.args[1]) or []
+                        if not any(self.in_family(k) for k in ks):
+                            continue
+                        subj = y.args[0]
+                        if isinstance(subj, ast.Name) and subj.id == param:
+                            return "attr"
+                        # element of a comprehension over the parameter
+                        for g in ast.walk(st.test):
+                            if isinstance(g, ast.GeneratorExp) and isinstance(g.generators[0].iter, ast.Name) \
+                                    and g.generators[0].iter.id == param:
+                                return "elem"
+        return None
 
     # ---- needs-the-hook fixpoint ---------------------------------------------------------------
     def needs(self, kind: str) -> Dict[str, bool]:
@@ -379,7 +404,11 @@ class Forwarding:
                 if body_entry is None:
                     continue
                 inner = [x for x in nodes if x != n]
-                if body_entry in inner or not cfg.reachable(body_entry, n, avoid=set(inner)):
+                early = _early_exits(cfg, loop)
+                if early:
+                    notes.append("the loop at line %d can be left early (break / return at line %s): later members are not "
+                                 "reached" % (nd.lineno, ", ".join(str(cfg.nodes[e].lineno) for e in early)))
+                elif body_entry in inner or not cfg.reachable(body_entry, n, avoid=set(inner)):
                     through.add(cfg.stmt_node[loop])
                 else:
                     p = cfg.path_avoiding(body_entry, n, avoid=set(inner))
@@ -400,6 +429,35 @@ class Forwarding:
         if notes:
             why += "; " + "; ".join(notes)
         return False, why
+
+
+def _early_exits(cfg, loop: ast.For) -> List[int]:
+    """break / return statements that leave this loop from inside its body (nested loops' breaks excluded)."""
+    out = []
+
+    def walk(stmts, nested):
+        for st in stmts:
+            if isinstance(st, ast.Break) and not nested:
+                n = cfg.stmt_node.get(st)
+                if n is not None:
+                    out.append(n)
+            elif isinstance(st, ast.Return):
+                n = cfg.stmt_node.get(st)
+                if n is not None:
+                    out.append(n)
+            elif isinstance(st, (ast.For, ast.While, ast.AsyncFor)):
+                walk(st.body, True)
+                walk(st.orelse, nested)
+            elif isinstance(st, (ast.FunctionDef, ast.AsyncFunctionDef, ast.ClassDef)):
+                continue
+            else:
+                for fld in ("body", "orelse", "finalbody"):
+                    walk(getattr(st, fld, []) or [], nested)
+                for h in getattr(st, "handlers", []) or []:
+                    walk(h.body, nested)
+
+    walk(loop.body, False)
+    return out
 
 
 def _loop_var_name(loop: ast.For, member: Member) -> str:
